@@ -32,7 +32,7 @@ func init() {
 
 func runC02(c *core.Ctx) {
 	pi := c.Index / argvPerProg
-	cfg := variantCfg(pi%4, c.Tier)
+	cfg := variantCfg(pi, c.Tier)
 	if pi%2 == 0 {
 		cfg.RepOneIn = 2
 		cfg.MaxOpts = 3
